@@ -13,6 +13,7 @@ from .. import cats, docgen as D, kdoc as K, snapshot as SN, spine as S
 from ..common import Bad, Result
 
 ID = 'C14'
+SHARDS_QUICK = 4
 TC = kp.TokenCategory
 RULE = ('Hypothesis RuleBasedStateMachine: @initialize draws a document (profile "full"; in half of the cases a '
         'measure-structured score) and imports it; up to 12 rules are then applied to the SAME Document object, drawn '
@@ -27,7 +28,9 @@ RULE = ('Hypothesis RuleBasedStateMachine: @initialize draws a document (profile
         'unchanged; module constants and the caller\'s own argument objects are unchanged; the result (value, or '
         'exception type and message) equals the result of the same call on a fresh import of the same text.  In addition '
         'a few drawn call sequences are executed in two fresh interpreters, forwards and backwards, and every call must '
-        'give the same result in both orders (interpreter-global state).  '
+        'give the same result in both orders (interpreter-global state).  Excerpt sweeps: for measure-structured scores '
+        'with signature changes, ALL (from, to) ranges of one imported document are exported in a drawn order and back, '
+        'each compared with the same excerpt of a copy imported for that call alone.  '
         'Non-trivial: >=3 distinct operations of which at least one raised or used a filter.')
 ASSUMPTIONS = ['state hidden outside Python attributes (ANTLR DFA caches) is only seen if it changes a result',
                'graph output is compared after canonical renaming of node<address> and #<node id> (process-global counters)']
@@ -430,12 +433,52 @@ def check_orders(case):
                   key=['orders', S.render(case['doc']), case['ops']], evals=2 * len(case['ops']))
 
 
+# ---- every excerpt of one document object, in a drawn order, against fresh imports ------------------------------------
+@st.composite
+def sweep_cases(draw):
+    doc = draw(D.measure_documents(D.mprofile(others=draw(st.booleans()), sig_changes=True, max_measures=5, sig_after_bar=True, quiet_spines=True)))
+    return {'doc': doc, 'perm': draw(st.permutations(list(range(21)))), 'enc': draw(st.sampled_from(['kern', 'ekern', 'bekern']))}
+
+
+def check_sweep(case):
+    """all (from, to) excerpts of ONE imported document, in a drawn order and then in the reverse order, must each
+    equal the excerpt of a copy imported just for that call (an answer remembered from an earlier excerpt with another
+    range is the typical way a read-only call changes a later one)"""
+    text = S.render(case['doc'])
+    kd = K.loads_clean(text)
+    M = kd.measures_count()
+    ranges = [(a, b) for a in range(1, M + 1) for b in range(a, M + 1)][:21]
+    order = [ranges[i] for i in case['perm'] if i < len(ranges)]
+    enc = K.ENCODINGS[case['enc']]
+    fresh = {}
+    for a, b in ranges:
+        try:
+            fresh[(a, b)] = kp.dumps(kp.loads(text)[0], from_measure=a, to_measure=b, encoding=enc)
+        except Exception as e:  # noqa
+            fresh[(a, b)] = ['EXC', type(e).__name__]
+    n = 0
+    for a, b in order + order[::-1]:
+        try:
+            got = kp.dumps(kd, from_measure=a, to_measure=b, encoding=enc)
+        except Exception as e:  # noqa
+            got = ['EXC', type(e).__name__]
+        n += 1
+        if got != fresh[(a, b)]:
+            raise Bad('excerpt-depends-on-history', f'dumps(from_measure={a}, to_measure={b}, {case["enc"]}) as call {n} of the sweep '
+                      f'{order + order[::-1]} differs from the same call on a freshly imported copy\n--- fresh\n{fresh[(a, b)]}\n--- in the sweep\n{got}\n{text}')
+    return Result(nontrivial=len(ranges) >= 6, classes=['excerpt-sweep', f'measures={M}'], sample={'document': text, 'order': order[:6]},
+                  key=['sweep', text, order], evals=2 * len(order))
+
+
 def run(ctx):
-    ctx.run_machine(ReadOnlyHistory, check_history, max_examples=60 if ctx.quick else 900, step_count=12, label='read-only')
-    ctx.run_hypothesis(order_cases(), check_orders, max_examples=5 if ctx.quick else 60, salt=5, label='orders')
+    ctx.run_hypothesis(sweep_cases(), check_sweep, max_examples=14 if ctx.quick else 600, salt=7, label='excerpt-sweeps')
+    ctx.run_machine(ReadOnlyHistory, check_history, max_examples=20 if ctx.quick else 900, step_count=12, label='read-only')
+    ctx.run_hypothesis(order_cases(), check_orders, max_examples=2 if ctx.quick else 60, salt=5, label='orders')
 
 
 def replay(case):
+    if 'perm' in case:
+        return check_sweep(case)
     r = check_history(case)
     check_orders(case)
     return r
